@@ -645,6 +645,25 @@ def h_collect(vf, node, fn, args):
     return tt(vf, v)
 
 
+@reg('ITER', 'std::iter::Iterator::unzip', 'rayon::iter::ParallelIterator::unzip')
+def h_unzip(vf, node, fn, args):
+    """iter of pairs -> pair of collections, element order kept: unzip([(a_k, b_k)]) = ([a_k], [b_k])"""
+    v = vf.deref(args[0])
+    if not isinstance(v, Seq):
+        return vf.default_call('std::iter::Iterator::unzip', args, node, fn)
+    before = len(vf.loops)
+    force(vf, v, node)
+    ls = vf.loops[before]
+    rt = ls.result_term
+    parts = []
+    for j in (0, 1):
+        c = mk_comp(v.n, ls.var, T.proj(rt, j))
+        if not getattr(ls, 'pure', False):
+            c = T.app('eff', c, T.sym('loop%d' % ls.uid))
+        parts.append(c)
+    return Tup(parts)
+
+
 @reg('ITER', 'std::iter::Iterator::sum', 'rayon::iter::ParallelIterator::sum')
 def h_sum(vf, node, fn, args):
     v = vf.deref(args[0])
